@@ -206,12 +206,18 @@ let () =
            let sigmas = List.map snd vg in let vg = List.map fst vg in
            let weight = nf () in let hw = nf () in let freq = nz () in let gfreq = nz () in
            let ug = nb () in let keep = nb () in let wt = nb () in let bt = nf () in let kb = nf () in
+           let eb = nb () in let ebeq = nz () in let nt = ni () in let target = Array.of_list (nflist nt) in
+           let sizes = List.map (fun (_, b) -> int_of_z b.b_nx) vg in
+           let eb_target ix =
+             (* row-major address of the index vector in the grid of the configuration *)
+             let a = List.fold_left2 (fun acc i n -> acc * n + int_of_z i) 0 ix sizes in
+             if a >= 0 && a < Array.length target then target.(a) else 0.0 in
            let it0 = nz () in let t = ni () in let k = ni () in
            let h = List.init t (fun _ -> List.init nd (fun _ -> [nf ()])) in
            let c = { c_vars0 = List.map fst vg; c_geom0 = List.map snd vg; c_sigmas = sigmas; c_weight = weight; c_hill_width = hw;
                      c_freq = freq; c_gfreq = gfreq; c_use_grids = ug; c_keep = keep; c_wt = wt;
-                     c_bias_temp = bt; c_kb = kb; c_step_zero = false; c_eb = false; c_eb_equil = z_of_int 0;
-                     c_eb_target = (fun _ -> 0.0) } in
+                     c_bias_temp = bt; c_kb = kb; c_step_zero = false; c_eb = eb; c_eb_equil = ebeq;
+                     c_eb_target = eb_target } in
            protocol (meta_machine fops) c it0 h k
              (fun (e, f) -> Printf.sprintf "E=%s F=%s" (hex e) (hexl (List.concat f)))
              (fun (_, hs) -> Printf.sprintf "NH=%d" (List.length hs))
